@@ -22,7 +22,7 @@ class Facts:
         if base is not None and ("adts:" + cfg_id) in base:
             aren = normalize.detect_adt_renames(normalize.adt_index(d), base["adts:" + cfg_id])
             if aren:
-                txt = normalize.apply_renames_text(txt, aren)
+                txt = normalize.apply_type_renames_text(txt, d["crate"], aren)
                 d = json.loads(txt)
                 normalize.rewrite_is_ok(d)
                 normalize.rewrite_split_at(d)
